@@ -195,12 +195,16 @@ static int handle2(size_t nw, char **w) {
 #include <gmssl/sm9.h>
 #include "harness_sm9.inc"
 #include "harness_x509.inc"
+#include "harness_crl.inc"
+#include "harness_cms.inc"
 
 static void handle(size_t nw, char **w) {
 	const char *op = w[0];
 	if (handle2(nw, w)) return;
 	if (handle_sm9(nw, w)) return;
 	if (handle_x509(nw, w)) return;
+	if (handle_crl(nw, w)) return;
+	if (handle_cms(nw, w)) return;
 	if (!strcmp(op, "lenE") && nw == 2) { size_t l = strtoull(w[1], NULL, 10); ENC(asn1_length_to_der(l, OUT, OUTLEN)); }
 	else if (!strcmp(op, "lenD") && nw == 2) { DEC_BEGIN(w[1]); size_t l = 0; r_ = asn1_length_from_der(&l, IN, INLEN); DEC_RET() { printf("OK %zu", l); } DEC_END(); }
 	else if (!strcmp(op, "typE") && nw == 3) { int tag = atoi(w[1]); xb d = isnull(w[2]) ? xalloc(0) : xhex(w[2]);
